@@ -403,8 +403,9 @@ def replay(path):
         regs, flags = [int(v, 16) for v in case["regs"]], int(case["rflags"], 16)
         mem = bytes.fromhex(case["mem_pattern"]) * (rv_x86.WIN // 256)
         st, nregs, nflags, nmem = nat.run(code, regs, flags, mem)
-        i = rv_x86.amoco_decode(code)
-        real = rv_x86.amoco_run(i, regs, flags, mem) if i is not None and not isinstance(i, str) else ("not-decoded" if i is None else i)
+        mode = case.get("mode", "x64")
+        i = rv_x86.amoco_decode(code, mode)
+        real = rv_x86.amoco_run(i, regs, flags, mem, mode) if i is not None and not isinstance(i, str) else ("not-decoded" if i is None else i)
         if isinstance(real, dict) and "mem" in real:
             real = dict(real, mem="same" if real["mem"] == nmem else "differs", regs=[hx(v) for v in real["regs"]])
         print("  real     :", i, real)
